@@ -23,6 +23,8 @@ func main() {
 	switch os.Args[1] {
 	case "vc":
 		cmdVC(os.Args[2:])
+	case "sources":
+		cmdSources()
 	case "check":
 		cmdCheck(os.Args[2:])
 	case "replay":
